@@ -2,9 +2,12 @@
 from reg._common import COMMON_ASSUME
 
 ENTRY = {
-    'lean_files': ['Props/C17.lean'],
+    'lean_files': ['Props/C17.lean', 'Props/C17Pipeline.lean'],
     'lemma_files': ['Lemmas/Equivariance.lean', 'Lemmas/Shift.lean', 'Lemmas/Bridge.lean', 'Lemmas/VS.lean', 'Lemmas/Elevate.lean',
-                    'Lemmas/Subdivide.lean', 'Props/C04.lean', 'Props/C08.lean', 'Model/Basic.lean', 'Model/Curve.lean'],
+                    'Lemmas/Subdivide.lean', 'Props/C04.lean', 'Props/C08.lean', 'Model/Basic.lean', 'Model/Curve.lean',
+                    'Lemmas/PipelineEquivariance.lean', 'Lemmas/PipelineTranslate.lean', 'Lemmas/PipelineInst.lean', 'Lemmas/Pipeline.lean',
+                    'Lemmas/Predicates.lean', 'Lemmas/PredicatesHull.lean', 'Model/Geometric.lean', 'Model/GeometricInst.lean',
+                    'Model/Helpers.lean', 'Model/Newton.lean', 'Model/Locate.lean', 'Model/Solve2x2.lean'],
     'script': 'props/c17.py',
     'rule': 'curve pairs of degree 1..12 (5x5 lattice nets of degree 1..4, random dyadic nets with 2/4/10 fractional bits, smooth '
             'dyadic nets sweeping across each other, the dyadic pairs of the repository\'s curve zoo, hand-made junction / end-point / '
@@ -16,7 +19,19 @@ ENTRY = {
             'presentation that returns; raises / flags judged when all pooled points are claimed; triangle pairs of degree 1..3 '
             '(perturbed affine lattices) x 6 presentations + base, judged when all edge/edge crossings are claimed and away from corners; '
             'distinct by hash of the exact nets',
-    'partial': ['the theorems are specification level: they state how the exact intersection set {(s,t) | B1(s) = B2(t)} of the list model '
+    'partial': ['pipeline level (Props/C17Pipeline, Lemmas/PipelineEquivariance, Lemmas/PipelineTranslate): allIntersections_invariant - for ANY '
+                'primitives and any transformation T of node arrays under which every primitive answers alike and subdivide / specialize / '
+                'elevate commute (PrimsInvariant), the executable pipeline model returns the same result on the transformed pair, every '
+                'fuel, every constants; for TRANSLATION in an ordered field every concrete primitive of both variants (boxes, box-segment '
+                'test, linearisation error, segment / parallel-segment intersection, convex hull and separating axis, Newton with both '
+                'cut rules, locate_point, subdivision, specialisation, elevation) is proved invariant EXCEPT vector_close, whose tolerance '
+                'is relative to the norms of the position vectors: pipeline_translate_partial (its invariance as hypothesis), '
+                'pipeline_translate_exact_close (eps = 0); the unrestricted statement is false - pipeline_translate_fails is a kernel-decided '
+                'pair, reproduced on both builds of the real code, whose translate loses a reported column; that column is a tolerance-level '
+                'near-intersection of two end points 2^-41 apart, not a common point of the curves, so it limits the theorem and is not a '
+                'violation of the property; mirror and axis swap at pipeline level are not proved (blocked by the traversal order of '
+                'simple_convex_hull and by the skipped left edge of bbox_line_intersect, see the FULL: comment)',
+                'the other presentations (reverse, elevate, split, scale, argument swap) are specification level: the theorems state how the exact intersection set {(s,t) | B1(s) = B2(t)} of the list model '
                 'is relabelled by each presentation (and that the bounding-box decision is invariant under the presentations that keep '
                 'the control points); that the subdivision / Newton pipeline all_intersections and the triangle pipeline return this '
                 'set is checked on the real code by the metamorphic oracle only',
